@@ -82,7 +82,8 @@ def check_c15(spec, instr, rec):
             continue
         if not ic.same_instr(instr, d):
             if d.name != instr.name:
-                kind = "enc_other_mnemonic"
+                # the mnemonic the candidates collapse to is the mechanism (CMPccPS -> CMPEQPS: predicate lost)
+                kind = "enc_other_mnemonic:->" + ic.base_mnemonic(spec, d)
             elif d.mode != instr.mode:
                 kind = "enc_other_mode"
             else:
@@ -150,12 +151,19 @@ def check_c16(spec, instr, rec):
     return out
 
 
-def make_key(spec, instr, name, kind):
-    """finding key = mechanism.  Assembler crashes are keyed by exception type and crash site.
-    On x86 the mnemonic is not the mechanism when prefixes are involved: a difference in operands
-    is keyed by its structural signature, and any other failure of an instruction that carries
-    legacy/REX prefixes by the dominant prefix class (computed from the bytes: g1 = lock/rep/repne >
-    o = 66 > a = 67 > seg > rex)."""
+def make_key(spec, instr, name, kind, enc=None):
+    """finding key = mechanism.
+    * assembler crashes: exception type and crash site;
+    * parse failures: the operand form (shape) the printer emits and the parser rejects;
+    * a candidate decoding to other operands: structural signature of the difference (x86), to
+      another mnemonic: the mnemonic it collapses to;
+    * x86 candidates that do not decode / decode with another length: how the candidate's prefixes
+      differ from the decoded bytes (the assembler's prefix variants are the mechanism);
+    * other x86 failures of a prefixed instruction: dominant prefix class of the decoded bytes
+      (g1 = lock/rep/repne > o = 66 > a = 67 > seg > rex);
+    * otherwise the operand codec chain of the table class (shared by the mnemonics generated from
+      one template), or the mnemonic when it cannot be determined.  SH4 'no encoding' is keyed by
+      operand shape: a dozen table classes decode to the same odd operand form."""
     fam = spec.family
     if kind.startswith(("asm_raises:", "parsed_asm_raises:")):
         return "%s %s" % (fam, kind)
@@ -165,14 +173,20 @@ def make_key(spec, instr, name, kind):
     if kind.startswith(("parse_raises:", "reprint_raises:")):
         # the printer/parser pair fails on an operand *form*, whatever the mnemonic
         return "%s %s shape=%s" % (fam, kind, ic.operand_shape(instr))
+    if kind.startswith("enc_other_mnemonic:"):
+        return "%s %s" % (fam, kind)
     if fam.startswith("x86"):
         if kind.startswith("enc_other_operands:"):
             return "%s %s" % (fam, kind)
+        if kind in ("enc_undecodable", "enc_length") and enc:
+            return "%s %s %s" % (fam, kind, ic.x86_prefix_delta(instr.b, enc, spec.mode))
         pfx = ic.x86_prefix_class(instr.b, spec.mode)
         if pfx:
             return "%s pfx[%s] %s" % (fam, pfx, kind)
     if kind.startswith("enc_other_operands:"):
         kind = "enc_other_operands"
+    if fam == "sh4" and kind in ("no_encoding", "parsed_no_encoding"):
+        return "%s %s shape=%s" % (fam, kind, ic.operand_shape(instr))
     # the operand codec chain of the table class (shared by the mnemonics generated from one
     # template) names the encode/decode code at fault better than the mnemonic does
     sig = ic.codec_sig(spec, instr)
@@ -224,7 +238,7 @@ def run(params, rec, which):
                 rec.sample(dict(arch=spec.name, bytes=ic.hexs(instr.b), text=text))
             seen = set()
             for kind, what, enc in fails:
-                key = make_key(spec, instr, name, kind)
+                key = make_key(spec, instr, name, kind, enc if which == "C15" else None)
                 if key in seen:
                     continue
                 seen.add(key)
